@@ -49,30 +49,21 @@ func (b *litBuilder) scalar(t *smt.Term) uint64 {
 	if t.Op == "var" {
 		return b.o.Model[t.Name]
 	}
-	// derived terms should not occur in entry values
-	b.unsup = "non-variable entry term"
-	return 0
+	v, ok := smt.Eval(t, b.o.Model, b.o.Arr)
+	if !ok {
+		b.unsup = "entry/expected term not evaluable under the model"
+	}
+	return v
 }
 
 func (b *litBuilder) elems(c sym.Content, off, n uint64) []uint64 {
+	if n > 1<<16 {
+		b.tooBig = true
+		return nil
+	}
 	out := make([]uint64, n)
-	switch x := c.(type) {
-	case sym.CSym:
-		m := b.o.Arr[x.A.Name]
-		for i := uint64(0); i < n; i++ {
-			if off+i < uint64(len(m)) {
-				out[i] = m[off+i]
-			}
-		}
-	case sym.CVec:
-		for i := uint64(0); i < n; i++ {
-			if off+i < uint64(len(x.E)) {
-				out[i] = b.scalar(x.E[off+i])
-			}
-		}
-	case sym.CZero:
-	default:
-		b.unsup = fmt.Sprintf("content %T", c)
+	for i := uint64(0); i < n; i++ {
+		out[i] = b.scalar(c.Elem(smt.BVC(64, off+i)))
 	}
 	return out
 }
@@ -239,16 +230,6 @@ func Replay(w *World, o *Outcome, replayJSON string) *ReplayResult {
 		res = append(res, fmt.Sprintf("r%d", i))
 	}
 	var sb strings.Builder
-	fmt.Fprintf(&sb, "package %s\n\nimport (\n", pkg.Name())
-	var imps []string
-	for p := range b.imports {
-		imps = append(imps, p)
-	}
-	sort.Strings(imps)
-	for _, p := range imps {
-		fmt.Fprintf(&sb, "\t%q\n", p)
-	}
-	fmt.Fprintf(&sb, ")\n\n// obligation: %s\nfunc TestVerifReplay(t *testing.T) {\n", o.Name)
 	sb.WriteString("\tdefer func() {\n\t\tif r := recover(); r != nil {\n\t\t\tfmt.Println(\"REPLAY-PANIC:\", r)\n\t\t\tt.FailNow()\n\t\t}\n\t}()\n")
 	for _, d := range decl {
 		sb.WriteString(d + "\n")
@@ -257,6 +238,30 @@ func Replay(w *World, o *Outcome, replayJSON string) *ReplayResult {
 		fmt.Fprintf(&sb, "\tfmt.Printf(\"REPLAY-ARG %s = %%#v\\n\", %s)\n", a, a)
 	}
 	var checkCond string
+	if ex, ok := o.Aux.(*sym.Expect); ok {
+		b.imports["reflect"] = "reflect"
+		var conds []string
+		if ex.HasResult && len(res) == 1 {
+			b.heap = ex.Heap
+			conds = append(conds, fmt.Sprintf("reflect.DeepEqual(r0, %s)", b.lit(ex.Result, sig.Results().At(0).Type())))
+		}
+		for i, p := range o.Entry.Params {
+			pv, ok := p.Val.(sym.PtrV)
+			if !ok || pv.Obj == nil || len(pv.Path) > 0 || b.scalar(pv.Nil) != 0 {
+				continue
+			}
+			b.heap = ex.Heap
+			want := ex.Heap[pv.Obj]
+			if want == nil {
+				continue
+			}
+			conds = append(conds, fmt.Sprintf("reflect.DeepEqual(*%s, %s)", argNames[i], b.lit(want, p.Typ.Underlying().(*types.Pointer).Elem())))
+		}
+		if b.unsup == "" && !b.tooBig && len(conds) > 0 {
+			checkCond = strings.Join(conds, " && ")
+		}
+		b.unsup = ""
+	}
 	if pc, ok := o.Aux.(*contract.PostCheck); ok {
 		pre, cond, ok := pc.FC.GoCheck(pc.Index, argNames, res)
 		if ok {
@@ -281,6 +286,19 @@ func Replay(w *World, o *Outcome, replayJSON string) *ReplayResult {
 		fmt.Fprintf(&sb, "\tif !(%s) {\n\t\tfmt.Println(\"REPLAY-POSTCONDITION-FALSE: %s\")\n\t\tt.FailNow()\n\t}\n\tfmt.Println(\"REPLAY-POSTCONDITION-HOLDS\")\n", checkCond, strings.ReplaceAll(checkCond, "\"", "'"))
 	}
 	sb.WriteString("}\n")
+	body := sb.String()
+	sb.Reset()
+	fmt.Fprintf(&sb, "package %s\n\nimport (\n", pkg.Name())
+	var imps []string
+	for p := range b.imports {
+		imps = append(imps, p)
+	}
+	sort.Strings(imps)
+	for _, p := range imps {
+		fmt.Fprintf(&sb, "\t%q\n", p)
+	}
+	fmt.Fprintf(&sb, ")\n\n// obligation: %s\nfunc TestVerifReplay(t *testing.T) {\n", o.Name)
+	sb.WriteString(body)
 	base := strings.TrimSuffix(replayJSON, ".json")
 	testFile := base + "_test.go"
 	os.WriteFile(testFile, []byte(sb.String()), 0o644)
